@@ -1,21 +1,2035 @@
-//! C18 — not built yet (stub).
+//! C18 — Database batches are atomic, isolated and survive growth of the map.
+//!
+//! Part "seq":   proptest-generated operation sequences over one `store::Store`
+//!               (default db + 3 prefix dbs) compared with a nested-transaction
+//!               map model (stack of overlays over a base map).
+//! Part "conc":  writer / reader / iterator-holder threads in a child process
+//!               while the LMDB map is enlarged automatically; generation
+//!               numbers make partial batches, lost commits and going back in
+//!               time observable.
+//! Part "crash": every cfg(grin_verif) crash point around `Batch::commit` of a
+//!               scenario is enumerated (child dies at point n, second child
+//!               reopens and dumps the content).
+//!
+//! Facts about the code under test this file relies on (store/src/lmdb.rs):
+//! * databases are selected by `db_key: Option<u8>` (None = default db, Some(p)
+//!   = the named LMDB database created for prefix byte p by Store::new);
+//!   iteration is over one whole database in LMDB's byte-lexicographic key order.
+//! * the environment is opened with MDB_NOTLS, Store::get_ser/exists/iter open
+//!   a fresh read transaction, and enter_tx only blocks while a resize is
+//!   pending and the thread holds no transaction — so reads through the Store on
+//!   the SAME thread while a batch is open are possible and are done here.
+//! * Store::get_ser opens one read transaction per call: several gets cannot
+//!   share a snapshot through the public API, so the snapshot unit of the
+//!   concurrent part is one iterator pass (or a batch used read-only).
+//! * heed opens the map with LMDB's default size (1 MiB, DEFAULT_MAPSIZE); under
+//!   AutomatedTesting it grows in 1 MiB chunks once `used/map > 0.9`
+//!   (needs_resize), only from Store::batch() (maybe_resize). Nested write
+//!   transactions may be nested to any depth; 3 child levels are exercised.
+//! * there is no public accessor for the map size: it is read from
+//!   /proc/self/maps, used space from the length of data.mdb.
 
 use crate::engine::*;
-use serde_json::Value;
+use crate::world::{init_global, init_thread};
+use crate::{ensure, fail};
+use grin_core::ser::{self, Readable, Reader, Writeable, Writer};
+use grin_store::lmdb::{Batch, DatabaseIterator, Error as DbError, Store};
+use grin_util::ToHex;
+use proptest::prelude::*;
+use serde_derive::{Deserialize, Serialize};
+use serde_json::{json, Value};
+use std::collections::{BTreeMap, BTreeSet};
+use std::path::{Path, PathBuf};
+use std::process::Command;
+use std::sync::atomic::{AtomicBool, AtomicU64, AtomicUsize, Ordering};
+use std::sync::{Arc, Mutex};
+use std::time::{Duration, Instant};
 
-pub fn run(_ctx: &Ctx) -> HResult<()> {
-	Err(HarnessError("C18 check not built yet".into()))
+// ------------------------------------------------------------------ common
+
+/// the three prefix databases (Store::new creates one named LMDB database per
+/// prefix byte; `None` selects the default database)
+const PREFIXES: [u8; 3] = [b'h', b'P', 0xF0];
+const NDB: usize = 4;
+
+fn dbk(db: usize) -> Option<u8> {
+	if db == 0 {
+		None
+	} else {
+		Some(PREFIXES[(db - 1) % 3])
+	}
 }
 
-pub fn replay(_ctx: &Ctx, _part: &str, _case: &Value) -> PResult {
+fn open_store(dir: &Path) -> Result<Store, DbError> {
+	Store::new(dir.to_str().unwrap(), None, Some("c18"), PREFIXES.to_vec(), None, None)
+}
+
+fn err_class(e: &DbError) -> String {
+	let s = e.to_string();
+	if s.contains("MAP_FULL") || s.to_lowercase().contains("mapsize limit") {
+		return "map-full".into();
+	}
+	match e {
+		DbError::NotFoundErr(_) => "NotFoundErr".into(),
+		DbError::LmdbErr(m) => format!("LmdbErr:{}", m.split(|c: char| !c.is_ascii_alphanumeric() && c != '_').filter(|w| !w.is_empty()).take(4).collect::<Vec<_>>().join("-")),
+		DbError::SerErr(_) => "SerErr".into(),
+		DbError::FileErr(_) => "FileErr".into(),
+		DbError::OtherErr(_) => "OtherErr".into(),
+	}
+}
+
+fn dberr(part: &str, op: &str, e: DbError) -> Fail {
+	if err_class(&e) == "map-full" {
+		return Fail::new(format!("{}:map-full", part), format!("{} failed for lack of space: {}", op, e));
+	}
+	Fail::new(format!("{}:op-error:{}:{}", part, op, err_class(&e)), format!("{} returned an error: {}", op, e))
+}
+
+fn hx(b: &[u8]) -> String {
+	if b.len() <= 24 {
+		b.to_vec().to_hex()
+	} else {
+		format!("{}..({} B)", b[..12].to_vec().to_hex(), b.len())
+	}
+}
+
+/// small key universe; chosen so that byte-lexicographic order differs from
+/// length order and from insertion order
+fn key_bytes(k: u8) -> Vec<u8> {
+	match k % 8 {
+		0 => vec![0],
+		1 => vec![0, 0],
+		2 => vec![0, 1],
+		3 => b"a".to_vec(),
+		4 => b"ab".to_vec(),
+		5 => vec![0x7f, 0x80, 0xff],
+		6 => vec![0xff],
+		_ => vec![b'k'; 40],
+	}
+}
+
+#[derive(Clone, Debug, Serialize, Deserialize, PartialEq)]
+pub struct ValSpec {
+	pub len: u32,
+	pub tag: u8,
+}
+
+impl ValSpec {
+	fn bytes(&self) -> Vec<u8> {
+		let n = self.len.max(1) as usize;
+		(0..n).map(|i| self.tag ^ ((i as u32).wrapping_mul(2654435761) >> 24) as u8).collect()
+	}
+}
+
+fn val_spec() -> impl Strategy<Value = ValSpec> {
+	(
+		prop_oneof![
+			6 => 1u32..200,
+			2 => 200u32..5000,
+			1 => 4000u32..4200,
+			1 => 5000u32..65536,
+			1 => Just(65536u32),
+		],
+		any::<u8>(),
+	)
+		.prop_map(|(len, tag)| ValSpec { len, tag })
+}
+
+/// value type for put_ser: u64 length + bytes. The model stores the
+/// hand-written encoding (big-endian length, then the bytes).
+struct Rec(Vec<u8>);
+
+impl Writeable for Rec {
+	fn write<W: Writer>(&self, w: &mut W) -> Result<(), ser::Error> {
+		w.write_u64(self.0.len() as u64)?;
+		w.write_fixed_bytes(&self.0)
+	}
+}
+
+impl Readable for Rec {
+	fn read<R: Reader>(r: &mut R) -> Result<Rec, ser::Error> {
+		let n = r.read_u64()?;
+		Ok(Rec(r.read_fixed_bytes(n as usize)?))
+	}
+}
+
+fn rec_encoding(body: &[u8]) -> Vec<u8> {
+	let mut v = (body.len() as u64).to_be_bytes().to_vec();
+	v.extend_from_slice(body);
+	v
+}
+
+/// if `v` is a Rec encoding return its body
+fn rec_body(v: &[u8]) -> Option<&[u8]> {
+	if v.len() < 8 {
+		return None;
+	}
+	let mut a = [0u8; 8];
+	a.copy_from_slice(&v[..8]);
+	if u64::from_be_bytes(a) as usize == v.len() - 8 && v.len() - 8 <= 100_000 {
+		Some(&v[8..])
+	} else {
+		None
+	}
+}
+
+/// bytes written as they are (put_ser path without any framing)
+struct Blob(Vec<u8>);
+
+impl Writeable for Blob {
+	fn write<W: Writer>(&self, w: &mut W) -> Result<(), ser::Error> {
+		w.write_fixed_bytes(&self.0)
+	}
+}
+
+/// size of the memory map of `<dir>/multi_lmdb/data.mdb` in this process, read
+/// from /proc/self/maps (the Store has no public accessor for the map size)
+fn map_size(dir: &Path) -> Option<u64> {
+	let want = dir.join("multi_lmdb").join("data.mdb");
+	let want = want.to_str()?;
+	let maps = std::fs::read_to_string("/proc/self/maps").ok()?;
+	let mut total = 0u64;
+	for l in maps.lines() {
+		if !l.ends_with(want) {
+			continue;
+		}
+		let range = l.split(' ').next()?;
+		let (a, b) = range.split_once('-')?;
+		total += u64::from_str_radix(b, 16).ok()? - u64::from_str_radix(a, 16).ok()?;
+	}
+	if total == 0 {
+		None
+	} else {
+		Some(total)
+	}
+}
+
+/// bytes of the data file in use (LMDB writes pages with pwrite, so the file
+/// ends at the last page ever committed = `last_page_number * page_size`,
+/// the quantity `needs_resize` looks at)
+fn file_used(dir: &Path) -> u64 {
+	std::fs::metadata(dir.join("multi_lmdb").join("data.mdb")).map(|m| m.len()).unwrap_or(0)
+}
+
+/// conservative page cost of writing one value of `len` bytes
+fn put_cost(len: usize) -> i64 {
+	((len as i64 + 4095) / 4096 + 2) * 4096
+}
+
+type KV = (Vec<u8>, Vec<u8>);
+type IterFn = fn(&[u8], &[u8]) -> Result<KV, DbError>;
+
+fn kv_copy(k: &[u8], v: &[u8]) -> Result<KV, DbError> {
+	Ok((k.to_vec(), v.to_vec()))
+}
+
+// ------------------------------------------------------------------ the model
+
+type Val = Arc<Vec<u8>>;
+type Db = BTreeMap<Vec<u8>, Val>;
+type Ov = BTreeMap<Vec<u8>, Option<Val>>;
+
+/// Nested-transaction map model: `base` is the committed content, `ovs` the
+/// stack of open levels (outermost first); `None` in an overlay = deleted.
+/// BTreeMap<Vec<u8>> orders keys byte-lexicographically (shorter first on a
+/// common prefix), which is LMDB's documented default key order.
+#[derive(Clone, Default)]
+struct Model {
+	base: [Db; NDB],
+	ovs: Vec<[Ov; NDB]>,
+}
+
+impl Model {
+	fn get(&self, db: usize, key: &[u8]) -> Option<Val> {
+		for ov in self.ovs.iter().rev() {
+			if let Some(x) = ov[db].get(key) {
+				return x.clone();
+			}
+		}
+		self.base[db].get(key).cloned()
+	}
+	fn get_base(&self, db: usize, key: &[u8]) -> Option<Val> {
+		self.base[db].get(key).cloned()
+	}
+	fn view(&self, db: usize) -> Vec<(Vec<u8>, Val)> {
+		let mut m: Db = self.base[db].clone();
+		for ov in &self.ovs {
+			for (k, v) in &ov[db] {
+				match v {
+					Some(v) => {
+						m.insert(k.clone(), v.clone());
+					}
+					None => {
+						m.remove(k);
+					}
+				}
+			}
+		}
+		m.into_iter().collect()
+	}
+	fn base_view(&self, db: usize) -> Vec<(Vec<u8>, Val)> {
+		self.base[db].iter().map(|(k, v)| (k.clone(), v.clone())).collect()
+	}
+	fn put(&mut self, db: usize, key: Vec<u8>, v: Vec<u8>) {
+		self.ovs.last_mut().expect("open level")[db].insert(key, Some(Arc::new(v)));
+	}
+	fn del(&mut self, db: usize, key: Vec<u8>) {
+		self.ovs.last_mut().expect("open level")[db].insert(key, None);
+	}
+	fn push(&mut self) {
+		self.ovs.push(Default::default());
+	}
+	fn drop_top(&mut self) {
+		self.ovs.pop().expect("open level");
+	}
+	fn commit_top(&mut self) {
+		let top = self.ovs.pop().expect("open level");
+		match self.ovs.last_mut() {
+			Some(below) => {
+				for (db, m) in top.into_iter().enumerate() {
+					for (k, v) in m {
+						below[db].insert(k, v);
+					}
+				}
+			}
+			None => {
+				for (db, m) in top.into_iter().enumerate() {
+					for (k, v) in m {
+						match v {
+							Some(v) => {
+								self.base[db].insert(k, v);
+							}
+							None => {
+								self.base[db].remove(&k);
+							}
+						}
+					}
+				}
+			}
+		}
+	}
+}
+
+fn list_diff(got: &[KV], want: &[(Vec<u8>, Val)]) -> Option<String> {
+	let same = got.len() == want.len() && got.iter().zip(want.iter()).all(|(g, w)| g.0 == w.0 && g.1 == **w.1);
+	if same {
+		return None;
+	}
+	let gk: Vec<String> = got.iter().map(|(k, v)| format!("{}={}", hx(k), hx(v))).collect();
+	let wk: Vec<String> = want.iter().map(|(k, v)| format!("{}={}", hx(k), hx(v))).collect();
+	Some(format!("got [{}] expected [{}]", gk.join(", "), wk.join(", ")))
+}
+
+// ------------------------------------------------------------------ part A: sequences
+
+const MAX_DEPTH: usize = 4; // outer batch + 3 nested child levels
+
+#[derive(Clone, Debug, Serialize, Deserialize, PartialEq)]
+pub enum Op {
+	/// depth 0: Store::batch(); inside a batch: Batch::child() of the innermost level
+	Open,
+	/// commit the innermost open level
+	Commit,
+	/// drop the innermost open level
+	Drop,
+	Put { db: u8, key: u8, val: ValSpec },
+	PutSer { db: u8, key: u8, val: ValSpec },
+	Delete { db: u8, key: u8 },
+	/// read at the innermost open level (outside read when nothing is open)
+	Get { db: u8, key: u8 },
+	Exists { db: u8, key: u8 },
+	Iter { db: u8 },
+	/// read through the Store (fresh read transaction) — also while a batch is open
+	OutGet { db: u8, key: u8 },
+	OutExists { db: u8, key: u8 },
+	OutIter { db: u8 },
+	/// open a Store::iter, read `take` entries and keep it open
+	HoldIter { db: u8, take: u8 },
+	/// read the rest of the held iterator
+	FinishIter,
+	/// drop the Store and open it again (only when no batch is open)
+	Reopen,
+}
+
+#[derive(Clone, Debug, Serialize, Deserialize)]
+pub struct Seq {
+	pub ops: Vec<Op>,
+}
+
+fn op_strategy() -> impl Strategy<Value = Op> {
+	let db = 0u8..NDB as u8;
+	let key = 0u8..8;
+	prop_oneof![
+		7 => Just(Op::Open),
+		5 => Just(Op::Commit),
+		3 => Just(Op::Drop),
+		9 => (db.clone(), key.clone(), val_spec()).prop_map(|(db, key, val)| Op::Put { db, key, val }),
+		4 => (db.clone(), key.clone(), val_spec()).prop_map(|(db, key, val)| Op::PutSer { db, key, val }),
+		5 => (db.clone(), key.clone()).prop_map(|(db, key)| Op::Delete { db, key }),
+		4 => (db.clone(), key.clone()).prop_map(|(db, key)| Op::Get { db, key }),
+		2 => (db.clone(), key.clone()).prop_map(|(db, key)| Op::Exists { db, key }),
+		3 => db.clone().prop_map(|db| Op::Iter { db }),
+		3 => (db.clone(), key.clone()).prop_map(|(db, key)| Op::OutGet { db, key }),
+		2 => (db.clone(), key.clone()).prop_map(|(db, key)| Op::OutExists { db, key }),
+		3 => db.clone().prop_map(|db| Op::OutIter { db }),
+		2 => (db.clone(), 0u8..4).prop_map(|(db, take)| Op::HoldIter { db, take }),
+		2 => Just(Op::FinishIter),
+		1 => Just(Op::Reopen),
+	]
+}
+
+fn seq_strategy(quick: bool) -> impl Strategy<Value = Seq> {
+	prop::collection::vec(op_strategy(), 6..if quick { 60 } else { 90 }).prop_map(|ops| Seq { ops })
+}
+
+struct Held {
+	it: DatabaseIterator<'static, IterFn, KV>,
+	expect: Vec<(Vec<u8>, Val)>,
+	got: Vec<KV>,
+	db: usize,
+	/// structural events (commit of an outermost batch) that happened while it was open
+	outer_commits_at_open: u32,
+}
+
+#[derive(Default)]
+struct Lvl {
+	writes: u32,
+	child_commit_w: bool,
+	child_dropped_w: bool,
+}
+
+struct SeqState<'c> {
+	ops: &'c [Op],
+	pos: usize,
+	model: Model,
+	held: Option<Held>,
+	lv: Vec<Lvl>,
+	skel: String,
+	max_depth: usize,
+	commits_at: [u32; MAX_DEPTH + 1],
+	drops_at: [u32; MAX_DEPTH + 1],
+	outer_commits: u32,
+	reopens: u32,
+	nt_child_committed_parent_dropped: bool,
+	nt_child_committed_after_sibling_dropped: bool,
+	nt_parent_committed_after_child_dropped: bool,
+	outside_reads_in_batch: u32,
+	held_across_commit: u32,
+	bytes_written: u64,
+	/// page budget of the open outermost batch (precondition of the real
+	/// callers: a batch fits into the space left when it was opened)
+	budget: i64,
+	skipped_for_headroom: u32,
+	map_sizes: Vec<u64>,
+}
+
+impl<'c> SeqState<'c> {
+	fn new(ops: &'c [Op]) -> Self {
+		SeqState {
+			ops,
+			pos: 0,
+			model: Model::default(),
+			held: None,
+			lv: vec![],
+			skel: String::new(),
+			max_depth: 0,
+			commits_at: [0; MAX_DEPTH + 1],
+			drops_at: [0; MAX_DEPTH + 1],
+			outer_commits: 0,
+			reopens: 0,
+			nt_child_committed_parent_dropped: false,
+			nt_child_committed_after_sibling_dropped: false,
+			nt_parent_committed_after_child_dropped: false,
+			outside_reads_in_batch: 0,
+			held_across_commit: 0,
+			bytes_written: 0,
+			budget: 0,
+			skipped_for_headroom: 0,
+			map_sizes: vec![],
+		}
+	}
+	fn push_level(&mut self) {
+		self.model.push();
+		self.lv.push(Lvl::default());
+		self.skel.push('(');
+		self.max_depth = self.max_depth.max(self.lv.len());
+	}
+	fn wrote(&mut self, n: usize) {
+		let l = self.lv.last_mut().unwrap();
+		if l.writes == 0 {
+			self.skel.push('w');
+		}
+		l.writes += 1;
+		self.bytes_written += n as u64;
+	}
+	/// called right after Store::batch() returned (maybe_resize has run)
+	fn outer_opened(&mut self, dir: &Path) {
+		let map = map_size(dir).unwrap_or(1 << 20);
+		if self.map_sizes.last() != Some(&map) {
+			self.map_sizes.push(map);
+		}
+		let headroom = map as i64 - file_used(dir) as i64;
+		// fixed reserve for copied branch/leaf pages of 4 dbs + main db + freelist
+		self.budget = (headroom - 96 * 1024) * 3 / 4;
+	}
+	fn afford(&mut self, len: usize) -> bool {
+		let c = put_cost(len);
+		if c > self.budget {
+			self.skipped_for_headroom += 1;
+			return false;
+		}
+		self.budget -= c;
+		true
+	}
+	fn end_level(&mut self, commit: bool) {
+		let depth = self.lv.len();
+		let l = self.lv.pop().unwrap();
+		let has_w = l.writes > 0;
+		if commit {
+			self.model.commit_top();
+			self.commits_at[depth] += 1;
+			self.skel.push(if has_w { 'C' } else { 'c' });
+			if l.child_dropped_w && has_w {
+				self.nt_parent_committed_after_child_dropped = true;
+			}
+			if depth == 1 {
+				self.outer_commits += 1;
+			}
+		} else {
+			self.model.drop_top();
+			self.drops_at[depth] += 1;
+			self.skel.push(if has_w { 'D' } else { 'd' });
+			if l.child_commit_w {
+				self.nt_child_committed_parent_dropped = true;
+			}
+		}
+		if let Some(p) = self.lv.last_mut() {
+			if commit && has_w {
+				if p.child_dropped_w {
+					self.nt_child_committed_after_sibling_dropped = true;
+				}
+				p.child_commit_w = true;
+				p.writes += l.writes;
+			}
+			if !commit && has_w {
+				p.child_dropped_w = true;
+			}
+		}
+	}
+}
+
+fn inside_get(b: &Batch<'_>, st: &SeqState, db: usize, key: &[u8]) -> PResult {
+	let want = st.model.get(db, key);
+	let got: Option<Vec<u8>> = b.get_ser(dbk(db), key, None).map_err(|e| dberr("seq", "Batch::get_ser", e))?;
+	if got.as_deref() != want.as_ref().map(|v| &v[..]) {
+		let base = st.model.get_base(db, key);
+		let sig = if got.as_deref() == base.as_ref().map(|v| &v[..]) { "seq:batch-read-misses-own-writes" } else { "seq:batch-get-mismatch" };
+		fail!(sig, "Batch::get_ser(db {}, key {}) at depth {} (op #{}) returned {:?}, model says {:?}", db, hx(key), st.lv.len(), st.pos, got.as_deref().map(hx), want.as_ref().map(|v| hx(v)));
+	}
+	// typed read of a framed value
+	if let Some(v) = &want {
+		if let Some(body) = rec_body(v) {
+			let r: Option<Rec> = b.get_ser(dbk(db), key, None).map_err(|e| dberr("seq", "Batch::get_ser<Rec>", e))?;
+			ensure!(r.as_ref().map(|r| &r.0[..]) == Some(body), "seq:batch-get-mismatch", "typed Batch::get_ser(db {}, key {}) differs from the value written with put_ser", db, hx(key));
+		}
+	}
 	Ok(())
 }
 
-pub fn part(_ctx: &Ctx, _part: &str, _seed: u64, _cases: u32) -> Option<(Value, Fail)> {
-	None
+fn inside_exists(b: &Batch<'_>, st: &SeqState, db: usize, key: &[u8]) -> PResult {
+	let want = st.model.get(db, key).is_some();
+	let got = b.exists(dbk(db), key).map_err(|e| dberr("seq", "Batch::exists", e))?;
+	ensure!(got == want, "seq:batch-exists-mismatch", "Batch::exists(db {}, key {}) at depth {} (op #{}) = {}, model says {}", db, hx(key), st.lv.len(), st.pos, got, want);
+	Ok(())
 }
 
-/// `gv child x C18 <args...>`
-pub fn child(_args: &[String]) -> i32 {
-	2
+fn inside_iter(b: &Batch<'_>, st: &SeqState, db: usize, when: &str) -> PResult {
+	let got: Vec<KV> = {
+		let it = b.iter(dbk(db), kv_copy as IterFn).map_err(|e| dberr("seq", "Batch::iter", e))?;
+		it.collect::<Result<Vec<_>, _>>().map_err(|e| dberr("seq", "Batch::iter.next", e))?
+	};
+	if let Some(d) = list_diff(&got, &st.model.view(db)) {
+		fail!("seq:batch-iter-mismatch", "Batch::iter(db {}) at depth {} ({}, op #{}): {}", db, st.lv.len(), when, st.pos, d);
+	}
+	Ok(())
+}
+
+fn audit_inside(b: &Batch<'_>, st: &SeqState, when: &str) -> PResult {
+	for db in 0..NDB {
+		inside_iter(b, st, db, when)?;
+	}
+	Ok(())
+}
+
+fn outside_sig(st: &SeqState, matches_inside: bool, what: &str) -> String {
+	if !st.lv.is_empty() && matches_inside {
+		"seq:outside-read-sees-uncommitted".to_string()
+	} else {
+		format!("seq:outside-{}-mismatch", what)
+	}
+}
+
+fn outside_get(s: &Store, st: &SeqState, db: usize, key: &[u8]) -> PResult {
+	let want = st.model.get_base(db, key);
+	let got: Option<Vec<u8>> = s.get_ser(dbk(db), key, None).map_err(|e| dberr("seq", "Store::get_ser", e))?;
+	if got.as_deref() != want.as_ref().map(|v| &v[..]) {
+		let ins = st.model.get(db, key);
+		let sig = outside_sig(st, got.as_deref() == ins.as_ref().map(|v| &v[..]), "get");
+		fail!(sig, "Store::get_ser(db {}, key {}) with {} open level(s) (op #{}) returned {:?}, committed content is {:?}", db, hx(key), st.lv.len(), st.pos, got.as_deref().map(hx), want.as_ref().map(|v| hx(v)));
+	}
+	Ok(())
+}
+
+fn outside_exists(s: &Store, st: &SeqState, db: usize, key: &[u8]) -> PResult {
+	let want = st.model.get_base(db, key).is_some();
+	let got = s.exists(dbk(db), key).map_err(|e| dberr("seq", "Store::exists", e))?;
+	if got != want {
+		let sig = outside_sig(st, got == st.model.get(db, key).is_some(), "exists");
+		fail!(sig, "Store::exists(db {}, key {}) with {} open level(s) (op #{}) = {}, committed content says {}", db, hx(key), st.lv.len(), st.pos, got, want);
+	}
+	Ok(())
+}
+
+fn outside_iter(s: &Store, st: &SeqState, db: usize, when: &str) -> PResult {
+	let got: Vec<KV> = {
+		let it = s.iter(dbk(db), kv_copy as IterFn).map_err(|e| dberr("seq", "Store::iter", e))?;
+		it.collect::<Result<Vec<_>, _>>().map_err(|e| dberr("seq", "Store::iter.next", e))?
+	};
+	if let Some(d) = list_diff(&got, &st.model.base_view(db)) {
+		let ins = list_diff(&got, &st.model.view(db)).is_none();
+		let sig = if when == "after-reopen" { "seq:content-differs-after-reopen".to_string() } else { outside_sig(st, ins, "iter") };
+		fail!(sig, "Store::iter(db {}) with {} open level(s) ({}, op #{}): {}", db, st.lv.len(), when, st.pos, d);
+	}
+	Ok(())
+}
+
+fn audit_outside(s: &Store, st: &SeqState, when: &str) -> PResult {
+	for db in 0..NDB {
+		outside_iter(s, st, db, when)?;
+	}
+	Ok(())
+}
+
+fn hold_iter(s: &Store, st: &mut SeqState, db: usize, take: usize) -> PResult {
+	finish_held(st)?;
+	let expect = st.model.base_view(db);
+	let it: DatabaseIterator<'static, IterFn, KV> = s.iter(dbk(db), kv_copy as IterFn).map_err(|e| dberr("seq", "Store::iter", e))?;
+	let mut h = Held { it, expect, got: vec![], db, outer_commits_at_open: st.outer_commits };
+	for _ in 0..take {
+		match h.it.next() {
+			Some(r) => h.got.push(r.map_err(|e| dberr("seq", "Store::iter.next", e))?),
+			None => break,
+		}
+	}
+	st.held = Some(h);
+	Ok(())
+}
+
+/// read the rest of the held iterator: it must deliver exactly the committed
+/// content at the time it was opened (its read transaction is a snapshot)
+fn finish_held(st: &mut SeqState) -> PResult {
+	let Some(mut h) = st.held.take() else { return Ok(()) };
+	while let Some(r) = h.it.next() {
+		h.got.push(r.map_err(|e| dberr("seq", "Store::iter.next", e))?);
+	}
+	if st.outer_commits > h.outer_commits_at_open {
+		st.held_across_commit += 1;
+	}
+	if let Some(d) = list_diff(&h.got, &h.expect) {
+		fail!("seq:held-iterator-not-a-snapshot", "a Store::iter(db {}) opened before and read across {} outer commit(s) (finished at op #{}) did not deliver the content committed when it was opened: {}", h.db, st.outer_commits - h.outer_commits_at_open, st.pos, d);
+	}
+	Ok(())
+}
+
+fn outside_op(s: &Store, st: &mut SeqState, op: &Op) -> PResult {
+	if !st.lv.is_empty() {
+		st.outside_reads_in_batch += 1;
+	}
+	match op {
+		Op::Get { db, key } | Op::OutGet { db, key } => outside_get(s, st, *db as usize, &key_bytes(*key)),
+		Op::Exists { db, key } | Op::OutExists { db, key } => outside_exists(s, st, *db as usize, &key_bytes(*key)),
+		Op::Iter { db } | Op::OutIter { db } => outside_iter(s, st, *db as usize, "op"),
+		Op::HoldIter { db, take } => hold_iter(s, st, *db as usize, *take as usize),
+		Op::FinishIter => finish_held(st),
+		_ => Ok(()),
+	}
+}
+
+/// runs one open level until it is committed, dropped or the sequence ends
+fn level(s: &Store, mut b: Batch<'_>, st: &mut SeqState) -> PResult {
+	loop {
+		if st.pos >= st.ops.len() {
+			drop(b);
+			st.end_level(false);
+			return Ok(());
+		}
+		let op = st.ops[st.pos].clone();
+		st.pos += 1;
+		match &op {
+			Op::Open => {
+				if st.lv.len() < MAX_DEPTH {
+					let c = b.child().map_err(|e| dberr("seq", "Batch::child", e))?;
+					st.push_level();
+					level(s, c, st)?;
+					// the parent is usable again: its view must be the model's
+					audit_inside(&b, st, "after-child-ended")?;
+					audit_outside(s, st, "after-child-ended")?;
+				}
+			}
+			Op::Commit => {
+				b.commit().map_err(|e| dberr("seq", "Batch::commit", e))?;
+				st.end_level(true);
+				return Ok(());
+			}
+			Op::Drop => {
+				drop(b);
+				st.end_level(false);
+				return Ok(());
+			}
+			Op::Put { db, key, val } => {
+				let (k, v) = (key_bytes(*key), val.bytes());
+				if !st.afford(v.len()) {
+					continue;
+				}
+				b.put(dbk(*db as usize), &k, &v).map_err(|e| dberr("seq", "Batch::put", e))?;
+				st.wrote(v.len());
+				st.model.put(*db as usize, k, v);
+			}
+			Op::PutSer { db, key, val } => {
+				let (k, body) = (key_bytes(*key), val.bytes());
+				let enc = rec_encoding(&body);
+				if !st.afford(enc.len()) {
+					continue;
+				}
+				b.put_ser(dbk(*db as usize), &k, &Rec(body)).map_err(|e| dberr("seq", "Batch::put_ser", e))?;
+				st.wrote(enc.len());
+				st.model.put(*db as usize, k, enc);
+			}
+			Op::Delete { db, key } => {
+				let k = key_bytes(*key);
+				if !st.afford(0) {
+					continue;
+				}
+				b.delete(dbk(*db as usize), &k).map_err(|e| dberr("seq", "Batch::delete", e))?;
+				st.wrote(0);
+				st.model.del(*db as usize, k);
+			}
+			Op::Get { db, key } => inside_get(&b, st, *db as usize, &key_bytes(*key))?,
+			Op::Exists { db, key } => inside_exists(&b, st, *db as usize, &key_bytes(*key))?,
+			Op::Iter { db } => inside_iter(&b, st, *db as usize, "op")?,
+			Op::OutGet { .. } | Op::OutExists { .. } | Op::OutIter { .. } | Op::HoldIter { .. } | Op::FinishIter => outside_op(s, st, &op)?,
+			Op::Reopen => {}
+		}
+	}
+}
+
+fn top_level(store: &mut Option<Store>, st: &mut SeqState, dir: &Path) -> PResult {
+	while st.pos < st.ops.len() {
+		let op = st.ops[st.pos].clone();
+		st.pos += 1;
+		match &op {
+			Op::Open => {
+				let s = store.as_ref().unwrap();
+				let b = s.batch().map_err(|e| dberr("seq", "Store::batch", e))?;
+				st.push_level();
+				st.outer_opened(dir);
+				level(s, b, st)?;
+				audit_outside(s, st, "after-outer-batch-ended")?;
+			}
+			Op::Reopen => {
+				finish_held(st)?;
+				*store = None;
+				*store = Some(open_store(dir).map_err(|e| dberr("seq", "Store::new(reopen)", e))?);
+				st.reopens += 1;
+				st.skel.push('R');
+				audit_outside(store.as_ref().unwrap(), st, "after-reopen")?;
+			}
+			Op::Commit | Op::Drop | Op::Put { .. } | Op::PutSer { .. } | Op::Delete { .. } => {}
+			_ => outside_op(store.as_ref().unwrap(), st, &op)?,
+		}
+	}
+	finish_held(st)?;
+	audit_outside(store.as_ref().unwrap(), st, "end")?;
+	*store = None;
+	*store = Some(open_store(dir).map_err(|e| dberr("seq", "Store::new(reopen)", e))?);
+	audit_outside(store.as_ref().unwrap(), st, "after-reopen")
+}
+
+fn check_seq(ctx: &Ctx, seq: &Seq, counting: bool) -> PResult {
+	let dir = ctx.scratch_dir("seq");
+	// declared before the state so that a held iterator is dropped before the Store
+	let mut store: Option<Store> = Some(open_store(&dir).map_err(|e| Fail::new("harness:open-store", e.to_string()))?);
+	let mut st = SeqState::new(&seq.ops);
+	let r = top_level(&mut store, &mut st, &dir);
+	st.held = None;
+	drop(store);
+	let _ = std::fs::remove_dir_all(&dir);
+	if counting {
+		let ev = &ctx.ev;
+		ev.eval();
+		ev.class(&format!("seq_depth_reached:{}", st.max_depth));
+		for d in 1..=MAX_DEPTH {
+			if st.drops_at[d] > 0 {
+				ev.class(&format!("seq_with_drop_at_level:{}", d));
+			}
+			if st.commits_at[d] > 0 {
+				ev.class(&format!("seq_with_commit_at_level:{}", d));
+			}
+		}
+		if st.reopens > 0 {
+			ev.class("seq_with_reopen");
+		}
+		if st.outside_reads_in_batch > 0 {
+			ev.class("seq_with_outside_read_while_batch_open");
+		}
+		if st.held_across_commit > 0 {
+			ev.class("seq_with_iterator_held_across_commit");
+		}
+		if st.map_sizes.len() > 1 {
+			ev.class("seq_with_map_resize");
+		}
+		if st.skipped_for_headroom > 0 {
+			ev.class("seq_with_puts_skipped_for_headroom");
+		}
+		if st.nt_child_committed_parent_dropped {
+			ev.class("seq_child_committed_parent_dropped");
+		}
+		if st.nt_child_committed_after_sibling_dropped {
+			ev.class("seq_child_committed_after_sibling_dropped");
+		}
+		if st.nt_parent_committed_after_child_dropped {
+			ev.class("seq_parent_committed_after_child_dropped");
+		}
+		if st.nt_child_committed_parent_dropped || st.nt_child_committed_after_sibling_dropped || st.nt_parent_committed_after_child_dropped {
+			ev.nontrivial(&("seq", st.skel.clone()));
+			ev.sample("seq", || json!({"skeleton": st.skel, "ops": seq.ops.len(), "first_ops": seq.ops.iter().take(25).collect::<Vec<_>>()}));
+		}
+	}
+	r
+}
+
+
+// ------------------------------------------------------------------ part B: concurrent + resize
+
+#[derive(Clone, Debug, Serialize, Deserialize)]
+pub struct Plan {
+	pub writers: u8,
+	pub readers: u8,
+	pub groups: u8,
+	pub keys_per_group: u8,
+	pub min_kib: u16,
+	pub max_kib: u16,
+	pub hold_ms: u16,
+	pub target_resizes: u8,
+	pub rng: u64,
+}
+
+fn plan_strategy() -> impl Strategy<Value = Plan> {
+	(1u8..=4, 1u8..=4, 0u8..=3, 2u8..=6, 10u16..=40, 0u16..=60, 20u16..=250, 2u8..=3, any::<u64>()).prop_map(
+		|(writers, readers, extra_groups, keys_per_group, min_kib, span, hold_ms, target_resizes, rng)| Plan {
+			writers,
+			readers,
+			groups: writers + extra_groups.min(6 - writers.min(6)),
+			keys_per_group,
+			min_kib,
+			max_kib: (min_kib + span).min(100),
+			hold_ms,
+			target_resizes,
+			rng,
+		},
+	)
+}
+
+const POISON: u64 = u64::MAX;
+
+struct Rng(u64);
+
+impl Rng {
+	fn new(a: u64, b: u64) -> Rng {
+		Rng(a ^ b.wrapping_mul(0x9E3779B97F4A7C15) ^ 0xD1B54A32D192ED03)
+	}
+	fn next(&mut self) -> u64 {
+		self.0 = self.0.wrapping_add(0x9E3779B97F4A7C15);
+		let mut z = self.0;
+		z = (z ^ (z >> 30)).wrapping_mul(0xBF58476D1CE4E5B9);
+		z = (z ^ (z >> 27)).wrapping_mul(0x94D049BB133111EB);
+		z ^ (z >> 31)
+	}
+	fn below(&mut self, n: u64) -> u64 {
+		if n == 0 {
+			0
+		} else {
+			self.next() % n
+		}
+	}
+}
+
+fn gkey(g: usize, j: usize) -> Vec<u8> {
+	format!("g{:02}k{:02}", g, j).into_bytes()
+}
+fn gkey_db(g: usize, j: usize) -> usize {
+	(g + j) % NDB
+}
+fn fkey(g: usize, gen: u64) -> Vec<u8> {
+	format!("f{:02}:{:020}", g, gen).into_bytes()
+}
+fn fkey_db(g: usize) -> usize {
+	g % NDB
+}
+
+/// value = generation (8 B BE) ‖ group (8 B BE) ‖ padding derived from the generation
+fn gval(g: usize, gen: u64, len: usize) -> Vec<u8> {
+	let len = len.max(16);
+	let mut v = Vec::with_capacity(len);
+	v.extend_from_slice(&gen.to_be_bytes());
+	v.extend_from_slice(&(g as u64).to_be_bytes());
+	v.resize(len, (gen as u8) ^ 0x5a);
+	v
+}
+
+/// (generation, group, well-formed)
+fn gparse(v: &[u8]) -> (u64, u64, bool) {
+	if v.len() < 16 {
+		return (0, 0, false);
+	}
+	let mut a = [0u8; 8];
+	a.copy_from_slice(&v[..8]);
+	let gen = u64::from_be_bytes(a);
+	a.copy_from_slice(&v[8..16]);
+	let g = u64::from_be_bytes(a);
+	let pad = (gen as u8) ^ 0x5a;
+	(gen, g, v[16..].iter().all(|&b| b == pad))
+}
+
+const OPS: [&str; 12] = [
+	"(harness code)",
+	"Store::batch",
+	"Batch::put/put_ser",
+	"Batch::child",
+	"Batch::commit",
+	"Store::iter",
+	"Store::iter.next",
+	"Store::get_ser",
+	"Store::exists",
+	"Batch::get_ser",
+	"Batch::exists",
+	"drop(Batch/iterator)",
+];
+
+struct Slot {
+	name: String,
+	op: AtomicUsize,
+	since_ms: AtomicU64,
+	calls: AtomicU64,
+	finished: AtomicBool,
+}
+
+struct Shared {
+	plan: Plan,
+	dir: PathBuf,
+	map_now: AtomicU64,
+	commits_over_threshold: AtomicU64,
+	t0: Instant,
+	committed: Vec<AtomicU64>,
+	attempt: Vec<AtomicU64>,
+	stop: AtomicBool,
+	fail: Mutex<Option<Fail>>,
+	slots: Vec<Slot>,
+	batches: AtomicU64,
+	dropped_batches: AtomicU64,
+	child_commits: AtomicU64,
+	child_drops: AtomicU64,
+	snapshots: AtomicU64,
+	gets: AtomicU64,
+	slow_opens: AtomicU64,
+	payload: AtomicU64,
+}
+
+impl Shared {
+	fn enter(&self, slot: usize, op: usize) {
+		let s = &self.slots[slot];
+		s.since_ms.store(self.t0.elapsed().as_millis() as u64, Ordering::SeqCst);
+		s.op.store(op, Ordering::SeqCst);
+		s.calls.fetch_add(1, Ordering::Relaxed);
+	}
+	fn leave(&self, slot: usize) {
+		let s = &self.slots[slot];
+		s.op.store(0, Ordering::SeqCst);
+		s.since_ms.store(self.t0.elapsed().as_millis() as u64, Ordering::SeqCst);
+	}
+	fn set_fail(&self, f: Fail) {
+		let mut g = self.fail.lock().unwrap();
+		if g.is_none() {
+			*g = Some(f);
+		}
+		self.stop.store(true, Ordering::SeqCst);
+	}
+	fn stopped(&self) -> bool {
+		self.stop.load(Ordering::SeqCst)
+	}
+}
+
+/// run a store call with the thread's "last operation" slot set
+macro_rules! call {
+	($sh:expr, $slot:expr, $op:expr, $what:expr, $e:expr) => {{
+		$sh.enter($slot, $op);
+		let r = $e;
+		$sh.leave($slot);
+		r.map_err(|e| dberr("conc", $what, e))
+	}};
+}
+
+fn put_group(sh: &Shared, slot: usize, b: &mut Batch<'_>, g: usize, gen: u64) -> PResult {
+	for j in 0..sh.plan.keys_per_group as usize {
+		let v = gval(g, gen, 16 + (j * 37 + g * 11) % 200);
+		if j % 2 == 0 {
+			call!(sh, slot, 2, "Batch::put", b.put(dbk(gkey_db(g, j)), &gkey(g, j), &v))?;
+		} else {
+			call!(sh, slot, 2, "Batch::put_ser", b.put_ser(dbk(gkey_db(g, j)), &gkey(g, j), &Blob(v)))?;
+		}
+	}
+	Ok(())
+}
+
+fn put_filler(sh: &Shared, slot: usize, b: &mut Batch<'_>, g: usize, gen: u64, payload: usize) -> PResult {
+	let v = gval(g, gen, payload);
+	call!(sh, slot, 2, "Batch::put", b.put(dbk(fkey_db(g)), &fkey(g, gen), &v))
+}
+
+/// One batch for group `g` (only its owner calls this): generation
+/// committed+1 goes into ALL keys of the group plus a new filler record.
+/// variant 0: the whole batch is dropped after writing POISON everywhere;
+/// 1: filler in a committed child; 2: a dropped child writes POISON first;
+/// 3: everything inside a committed child; else plain.
+fn do_batch(sh: &Shared, store: &Store, slot: usize, g: usize, payload: usize, variant: u64) -> PResult {
+	let gen = sh.committed[g].load(Ordering::SeqCst) + 1;
+	let poison = variant == 0;
+	if !poison {
+		sh.attempt[g].store(gen, Ordering::SeqCst);
+	}
+	let t = Instant::now();
+	let mut b = call!(sh, slot, 1, "Store::batch", store.batch())?;
+	let map_at_open = sh.map_now.load(Ordering::Relaxed);
+	if t.elapsed() >= Duration::from_millis(80) {
+		sh.slow_opens.fetch_add(1, Ordering::Relaxed);
+	}
+	match variant {
+		0 => {
+			put_group(sh, slot, &mut b, g, POISON)?;
+			put_filler(sh, slot, &mut b, g, POISON, payload)?;
+			sh.enter(slot, 11);
+			drop(b);
+			sh.leave(slot);
+			sh.dropped_batches.fetch_add(1, Ordering::Relaxed);
+			return Ok(());
+		}
+		1 => {
+			put_group(sh, slot, &mut b, g, gen)?;
+			let mut c = call!(sh, slot, 3, "Batch::child", b.child())?;
+			put_filler(sh, slot, &mut c, g, gen, payload)?;
+			call!(sh, slot, 4, "Batch::commit(child)", c.commit())?;
+			sh.child_commits.fetch_add(1, Ordering::Relaxed);
+		}
+		2 => {
+			{
+				let mut c = call!(sh, slot, 3, "Batch::child", b.child())?;
+				put_group(sh, slot, &mut c, g, POISON)?;
+				put_filler(sh, slot, &mut c, g, POISON, payload / 4)?;
+				drop(c);
+				sh.child_drops.fetch_add(1, Ordering::Relaxed);
+			}
+			put_group(sh, slot, &mut b, g, gen)?;
+			put_filler(sh, slot, &mut b, g, gen, payload)?;
+		}
+		3 => {
+			let mut c = call!(sh, slot, 3, "Batch::child", b.child())?;
+			put_group(sh, slot, &mut c, g, gen)?;
+			put_filler(sh, slot, &mut c, g, gen, payload)?;
+			call!(sh, slot, 4, "Batch::commit(child)", c.commit())?;
+			sh.child_commits.fetch_add(1, Ordering::Relaxed);
+		}
+		_ => {
+			put_group(sh, slot, &mut b, g, gen)?;
+			put_filler(sh, slot, &mut b, g, gen, payload)?;
+		}
+	}
+	call!(sh, slot, 4, "Batch::commit", b.commit())?;
+	// evidence for the diagnosis of a full map: commits that ended above the
+	// documented 90 % threshold of the map size known when the batch was opened
+	if map_at_open > 0 && file_used(&sh.dir) as f64 > 0.9 * map_at_open as f64 {
+		sh.commits_over_threshold.fetch_add(1, Ordering::Relaxed);
+	}
+	sh.committed[g].store(gen, Ordering::SeqCst);
+	sh.batches.fetch_add(1, Ordering::Relaxed);
+	sh.payload.fetch_add(payload as u64, Ordering::Relaxed);
+	Ok(())
+}
+
+/// one entry of an iteration pass: key, generation, group, value length, well-formed
+type Item = (Vec<u8>, u64, u64, usize, bool);
+type ItemFn = fn(&[u8], &[u8]) -> Result<Item, DbError>;
+
+fn item_of(k: &[u8], v: &[u8]) -> Result<Item, DbError> {
+	let (gen, g, ok) = gparse(v);
+	Ok((k.to_vec(), gen, g, v.len(), ok))
+}
+
+fn loads(v: &[AtomicU64]) -> Vec<u64> {
+	v.iter().map(|a| a.load(Ordering::SeqCst)).collect()
+}
+
+/// One iteration pass over database `db` is one snapshot. `pre` = committed
+/// generations loaded before the read transaction was opened, `post` =
+/// attempted generations loaded after it was opened.
+fn check_snapshot(plan: &Plan, db: usize, items: &[Item], pre: &[u64], post: &[u64], last_seen: &mut [u64], who: &str, exact: bool) -> PResult {
+	for w in items.windows(2) {
+		ensure!(w[0].0 < w[1].0, "conc:iter-order", "{}: iteration of db {} is not in strictly ascending key order: {} then {}", who, db, hx(&w[0].0), hx(&w[1].0));
+	}
+	let kpg = plan.keys_per_group as usize;
+	for g in 0..plan.groups as usize {
+		let want_keys: Vec<Vec<u8>> = (0..kpg).filter(|&j| gkey_db(g, j) == db).map(|j| gkey(g, j)).collect();
+		let has_filler = fkey_db(g) == db;
+		if want_keys.is_empty() && !has_filler {
+			continue;
+		}
+		let mut gens: BTreeSet<u64> = BTreeSet::new();
+		let mut present = 0;
+		for k in &want_keys {
+			if let Some(it) = items.iter().find(|it| &it.0 == k) {
+				present += 1;
+				gens.insert(it.1);
+				ensure!(it.4 && it.2 == g as u64, "conc:value-corrupt", "{}: value of {} in db {} is malformed (gen {} group {} len {})", who, String::from_utf8_lossy(k), db, it.1, it.2, it.3);
+			}
+		}
+		ensure!(!gens.contains(&POISON), "conc:dropped-batch-visible", "{}: a value written only by a dropped batch / dropped child batch is visible in db {} group {}", who, db, g);
+		ensure!(gens.len() <= 1 && (present == 0 || present == want_keys.len()), "conc:partial-batch", "{}: one iteration pass over db {} saw group {} in generations {:?} with {} of {} keys present — every batch writes all keys of the group", who, db, g, gens, present, want_keys.len());
+		let fill: Vec<&Item> = items.iter().filter(|it| it.0.starts_with(format!("f{:02}:", g).as_bytes())).collect();
+		let gen = match gens.iter().next() {
+			Some(&x) => x,
+			None if want_keys.is_empty() => fill.len() as u64,
+			None => 0,
+		};
+		if has_filler {
+			// fillers of this group must be exactly generations 1..=gen
+			let got: Vec<u64> = fill.iter().map(|it| it.1).collect();
+			let want: Vec<u64> = (1..=gen).collect();
+			if got != want {
+				let sig = if got.contains(&POISON) { "conc:dropped-batch-visible" } else if got.len() < want.len() && exact { "conc:committed-write-lost" } else { "conc:partial-batch" };
+				fail!(sig, "{}: iteration pass over db {}: group {} is at generation {} but its filler records are generations {:?} (expected exactly 1..={})", who, db, g, gen, if got.len() > 12 { got[got.len() - 12..].to_vec() } else { got.clone() }, gen);
+			}
+			for it in &fill {
+				ensure!(it.4 && it.2 == g as u64 && it.0 == fkey(g, it.1), "conc:value-corrupt", "{}: filler record {} in db {} is malformed", who, String::from_utf8_lossy(&it.0), db);
+			}
+		}
+		ensure!(gen >= pre[g], if exact { "conc:committed-write-lost" } else { "conc:committed-write-not-visible" }, "{}: db {} group {} read at generation {} although generation {} had been committed before the read started", who, db, g, gen, pre[g]);
+		ensure!(gen <= post[g], "conc:uncommitted-visible", "{}: db {} group {} read at generation {} but only {} was ever attempted", who, db, g, gen, post[g]);
+		if exact {
+			ensure!(gen == pre[g], "conc:committed-write-lost", "{}: db {} group {} is at generation {} after all writers finished, committed was {}", who, db, g, gen, pre[g]);
+		}
+		ensure!(gen >= last_seen[g], "conc:generation-went-back", "{}: db {} group {} read at generation {} after the same thread had seen {}", who, db, g, gen, last_seen[g]);
+		last_seen[g] = gen;
+	}
+	Ok(())
+}
+
+fn check_one(g: usize, what: &str, v: Option<&[u8]>, pre: u64, post: u64, last_seen: &mut u64, who: &str) -> Result<u64, Fail> {
+	let gen = match v {
+		None => 0,
+		Some(v) => {
+			let (gen, gg, ok) = gparse(v);
+			ensure!(gen != POISON, "conc:dropped-batch-visible", "{}: {} returned a value written only by a dropped batch", who, what);
+			ensure!(ok && gg == g as u64, "conc:value-corrupt", "{}: {} returned a malformed value (gen {} group {} len {})", who, what, gen, gg, v.len());
+			gen
+		}
+	};
+	ensure!(gen >= pre, "conc:committed-write-not-visible", "{}: {} read generation {} although {} had been committed before", who, what, gen, pre);
+	ensure!(gen <= post, "conc:uncommitted-visible", "{}: {} read generation {} but only {} was attempted", who, what, gen, post);
+	ensure!(gen >= *last_seen, "conc:generation-went-back", "{}: {} read generation {} after the same thread had seen {}", who, what, gen, *last_seen);
+	*last_seen = gen;
+	Ok(gen)
+}
+
+fn iter_pass(sh: &Shared, store: &Store, slot: usize, db: usize, hold: Option<(&mut Rng, u64)>, last_seen: &mut [u64], who: &str) -> PResult {
+	let pre = loads(&sh.committed);
+	let mut it: DatabaseIterator<'static, ItemFn, Item> = call!(sh, slot, 5, "Store::iter", store.iter(dbk(db), item_of as ItemFn))?;
+	let post = loads(&sh.attempt);
+	let mut items: Vec<Item> = vec![];
+	let mut nested: Option<(usize, u64)> = None;
+	if let Some((rng, hold_ms)) = hold {
+		// hold the open iterator (its read transaction) for a while, read a
+		// part, do a nested read on the same thread, hold again
+		std::thread::sleep(Duration::from_millis(rng.below(hold_ms + 1)));
+		let part = rng.below(8) as usize;
+		for _ in 0..part {
+			sh.enter(slot, 6);
+			let n = it.next();
+			sh.leave(slot);
+			match n {
+				Some(r) => items.push(r.map_err(|e| dberr("conc", "Store::iter.next", e))?),
+				None => break,
+			}
+		}
+		let g = rng.below(sh.plan.groups as u64) as usize;
+		let pre1 = sh.committed[g].load(Ordering::SeqCst);
+		let v: Option<Vec<u8>> = call!(sh, slot, 7, "Store::get_ser", store.get_ser(dbk(gkey_db(g, 0)), &gkey(g, 0), None))?;
+		let post1 = sh.attempt[g].load(Ordering::SeqCst);
+		let mut ls = 0;
+		let gen = check_one(g, "Store::get_ser (while holding an iterator)", v.as_deref(), pre1, post1, &mut ls, who)?;
+		nested = Some((g, gen));
+		std::thread::sleep(Duration::from_millis(rng.below(hold_ms / 2 + 1)));
+	}
+	loop {
+		sh.enter(slot, 6);
+		let n = it.next();
+		sh.leave(slot);
+		match n {
+			Some(r) => items.push(r.map_err(|e| dberr("conc", "Store::iter.next", e))?),
+			None => break,
+		}
+	}
+	sh.enter(slot, 11);
+	drop(it);
+	sh.leave(slot);
+	check_snapshot(&sh.plan, db, &items, &pre, &post, last_seen, who, false)?;
+	if let Some((g, gen)) = nested {
+		// the nested read used a newer transaction than the iterator
+		last_seen[g] = last_seen[g].max(gen);
+	}
+	sh.snapshots.fetch_add(1, Ordering::Relaxed);
+	Ok(())
+}
+
+fn reader_loop(sh: &Shared, store: &Store, slot: usize, kind: usize, idx: u64) -> PResult {
+	let plan = &sh.plan;
+	let mut rng = Rng::new(plan.rng, 1000 + idx);
+	let who = sh.slots[slot].name.clone();
+	let mut last_seen = vec![0u64; plan.groups as usize];
+	let kpg = plan.keys_per_group as usize;
+	while !sh.stopped() {
+		match kind {
+			// full iteration passes
+			0 => iter_pass(sh, store, slot, rng.below(NDB as u64) as usize, None, &mut last_seen, &who)?,
+			// single gets / exists
+			1 => {
+				for _ in 0..32 {
+					let g = rng.below(plan.groups as u64) as usize;
+					let j = rng.below(kpg as u64) as usize;
+					let pre = sh.committed[g].load(Ordering::SeqCst);
+					if rng.below(4) == 0 {
+						let e = call!(sh, slot, 8, "Store::exists", store.exists(dbk(gkey_db(g, j)), &gkey(g, j)))?;
+						ensure!(e || pre == 0, "conc:committed-write-not-visible", "{}: Store::exists(group {} key {}) is false although generation {} was committed", who, g, j, pre);
+						if pre > 0 {
+							let f = 1 + rng.below(pre);
+							let e = call!(sh, slot, 8, "Store::exists", store.exists(dbk(fkey_db(g)), &fkey(g, f)))?;
+							ensure!(e, "conc:committed-write-lost", "{}: filler record of group {} generation {} does not exist although generation {} was committed", who, g, f, pre);
+						}
+						let e = call!(sh, slot, 8, "Store::exists", store.exists(dbk(fkey_db(g)), &fkey(g, POISON)))?;
+						ensure!(!e, "conc:dropped-batch-visible", "{}: the filler record written only by dropped batches of group {} exists", who, g);
+					} else {
+						let v: Option<Vec<u8>> = call!(sh, slot, 7, "Store::get_ser", store.get_ser(dbk(gkey_db(g, j)), &gkey(g, j), None))?;
+						let post = sh.attempt[g].load(Ordering::SeqCst);
+						check_one(g, &format!("Store::get_ser(group {} key {})", g, j), v.as_deref(), pre, post, &mut last_seen[g], &who)?;
+					}
+					sh.gets.fetch_add(1, Ordering::Relaxed);
+				}
+			}
+			// a batch used as a reader: all keys of a group (across databases) in one transaction
+			_ => {
+				let g = rng.below(plan.groups as u64) as usize;
+				let pre = sh.committed[g].load(Ordering::SeqCst);
+				let b = call!(sh, slot, 1, "Store::batch", store.batch())?;
+				let mut gens = BTreeSet::new();
+				for j in 0..kpg {
+					let v: Option<Vec<u8>> = call!(sh, slot, 9, "Batch::get_ser", b.get_ser(dbk(gkey_db(g, j)), &gkey(g, j), None))?;
+					let post = sh.attempt[g].load(Ordering::SeqCst);
+					let mut ls = last_seen[g];
+					gens.insert(check_one(g, &format!("Batch::get_ser(group {} key {})", g, j), v.as_deref(), pre, post, &mut ls, &who)?);
+				}
+				ensure!(gens.len() == 1, "conc:partial-batch", "{}: one batch read group {} in generations {:?}", who, g, gens);
+				let gen = *gens.iter().next().unwrap();
+				if gen > 0 {
+					let e = call!(sh, slot, 10, "Batch::exists", b.exists(dbk(fkey_db(g)), &fkey(g, gen)))?;
+					ensure!(e, "conc:partial-batch", "{}: a batch read group {} at generation {} but its filler record is missing", who, g, gen);
+				}
+				let e = call!(sh, slot, 10, "Batch::exists", b.exists(dbk(fkey_db(g)), &fkey(g, gen + 1)))?;
+				ensure!(!e, "conc:partial-batch", "{}: a batch read group {} at generation {} but the filler record of {} exists", who, g, gen, gen + 1);
+				sh.enter(slot, 11);
+				drop(b);
+				sh.leave(slot);
+				last_seen[g] = gen;
+				sh.snapshots.fetch_add(1, Ordering::Relaxed);
+				std::thread::sleep(Duration::from_millis(1 + rng.below(3)));
+			}
+		}
+	}
+	Ok(())
+}
+
+fn writer_loop(sh: &Shared, store: &Store, slot: usize, w: usize) -> PResult {
+	let plan = &sh.plan;
+	let mut rng = Rng::new(plan.rng, 100 + w as u64);
+	let own: Vec<usize> = (0..plan.groups as usize).filter(|g| g % plan.writers as usize == w).collect();
+	while !sh.stopped() {
+		let g = own[rng.below(own.len() as u64) as usize];
+		let payload = 1024 * (plan.min_kib as u64 + rng.below((plan.max_kib - plan.min_kib) as u64 + 1)) as usize;
+		let variant = rng.below(10);
+		do_batch(sh, store, slot, g, payload, variant)?;
+	}
+	Ok(())
+}
+
+fn holder_loop(sh: &Shared, store: &Store, slot: usize) -> PResult {
+	let mut rng = Rng::new(sh.plan.rng, 7777);
+	let who = sh.slots[slot].name.clone();
+	let mut last_seen = vec![0u64; sh.plan.groups as usize];
+	while !sh.stopped() {
+		let db = rng.below(NDB as u64) as usize;
+		let hold_ms = sh.plan.hold_ms as u64;
+		iter_pass(sh, store, slot, db, Some((&mut rng, hold_ms)), &mut last_seen, &who)?;
+	}
+	Ok(())
+}
+
+fn final_check(plan: &Plan, store: &Store, committed: &[u64], when: &str) -> PResult {
+	for db in 0..NDB {
+		let it = store.iter(dbk(db), item_of as ItemFn).map_err(|e| dberr("conc", "Store::iter", e))?;
+		let items: Vec<Item> = it.collect::<Result<Vec<_>, _>>().map_err(|e| dberr("conc", "Store::iter.next", e))?;
+		let mut ls = vec![0u64; plan.groups as usize];
+		check_snapshot(plan, db, &items, committed, committed, &mut ls, when, true)?;
+	}
+	Ok(())
+}
+
+/// body of the child process `gv child x C18 conc <plan.json> <dir> <out.json>`
+fn conc_child(plan: &Plan, dir: &Path) -> Value {
+	let harness = |m: String| json!({"status": "harness", "msg": m});
+	let failv = |f: &Fail, stats: Value| json!({"status": "fail", "sig": f.sig, "msg": f.msg, "stats": stats});
+	let store = match open_store(dir) {
+		Ok(s) => Arc::new(s),
+		Err(e) => return harness(format!("open: {}", e)),
+	};
+	let Some(map0) = map_size(dir) else { return harness("cannot read the map size from /proc/self/maps".into()) };
+	let nw = plan.writers as usize;
+	let nr = plan.readers as usize;
+	let mut names = vec!["main(warm-up/monitor)".to_string()];
+	for w in 0..nw {
+		names.push(format!("writer-{}", w));
+	}
+	for r in 0..nr {
+		names.push(format!("reader-{}({})", r, ["iter", "get", "batch-read"][r % 3]));
+	}
+	names.push("iterator-holder".into());
+	let sh = Arc::new(Shared {
+		plan: plan.clone(),
+		dir: dir.to_path_buf(),
+		map_now: AtomicU64::new(map0),
+		commits_over_threshold: AtomicU64::new(0),
+		t0: Instant::now(),
+		committed: (0..plan.groups).map(|_| AtomicU64::new(0)).collect(),
+		attempt: (0..plan.groups).map(|_| AtomicU64::new(0)).collect(),
+		stop: AtomicBool::new(false),
+		fail: Mutex::new(None),
+		slots: names.iter().map(|n| Slot { name: n.clone(), op: AtomicUsize::new(0), since_ms: AtomicU64::new(0), calls: AtomicU64::new(0), finished: AtomicBool::new(false) }).collect(),
+		batches: AtomicU64::new(0),
+		dropped_batches: AtomicU64::new(0),
+		child_commits: AtomicU64::new(0),
+		child_drops: AtomicU64::new(0),
+		snapshots: AtomicU64::new(0),
+		gets: AtomicU64::new(0),
+		slow_opens: AtomicU64::new(0),
+		payload: AtomicU64::new(0),
+	});
+	let mut map_sizes = vec![map0];
+	// ---- warm-up (single thread): the map starts at LMDB's default 1 MiB and
+	// maybe_resize only guarantees 10 % of it as headroom when a batch is
+	// opened, so batches stay below map/40 until the map is large enough for
+	// every thread that opens batches (writers and batch-readers: while one
+	// of them runs the size check the others skip it by design) to have four
+	// batches of max_kib in flight inside those 10 %: 40 * openers * max_kib
+	let openers = nw + (0..nr).filter(|r| r % 3 == 2).count();
+	let need = 40 * openers as u64 * plan.max_kib as u64 * 1024;
+	let mut rng = Rng::new(plan.rng, 1);
+	let mut warm = 0u64;
+	loop {
+		let map = map_size(dir).unwrap_or(0);
+		if map_sizes.last() != Some(&map) {
+			map_sizes.push(map);
+			sh.map_now.store(map, Ordering::Relaxed);
+		}
+		if map >= need {
+			break;
+		}
+		if warm > 20_000 {
+			return harness(format!("warm-up did not reach a map of {} bytes (map sizes {:?})", need, map_sizes));
+		}
+		let g = (warm % plan.groups as u64) as usize;
+		let payload = ((map / 40) as usize).min(plan.max_kib as usize * 1024).max(1024);
+		if let Err(f) = do_batch(&sh, &store, 0, g, payload, rng.below(10)) {
+			return failv(&f, json!({"phase": "warm-up", "map_sizes": map_sizes, "batches": warm}));
+		}
+		warm += 1;
+	}
+	let warm_resizes = map_sizes.len() - 1;
+	// ---- concurrent phase
+	let mut handles = vec![];
+	let spawn = |slot: usize, f: Box<dyn FnOnce(&Shared, &Store) -> PResult + Send>| {
+		let sh = sh.clone();
+		let store = store.clone();
+		std::thread::spawn(move || {
+			init_thread();
+			let r = match catch(|| f(&sh, &store)) {
+				Ok(r) => r,
+				Err(p) => Err(p),
+			};
+			if let Err(f) = r {
+				sh.set_fail(f);
+			}
+			sh.slots[slot].finished.store(true, Ordering::SeqCst);
+		})
+	};
+	for w in 0..nw {
+		let slot = 1 + w;
+		handles.push(spawn(slot, Box::new(move |sh, st| writer_loop(sh, st, slot, w))));
+	}
+	for r in 0..nr {
+		let slot = 1 + nw + r;
+		handles.push(spawn(slot, Box::new(move |sh, st| reader_loop(sh, st, slot, r % 3, r as u64))));
+	}
+	{
+		let slot = 1 + nw + nr;
+		handles.push(spawn(slot, Box::new(move |sh, st| holder_loop(sh, st, slot))));
+	}
+	let n_threads = handles.len();
+	let mut snapshots_at_resize: Vec<u64> = vec![];
+	let mut stalled: Option<String> = None;
+	let mut cap_hit = false;
+	loop {
+		std::thread::sleep(Duration::from_millis(2));
+		let map = map_size(dir).unwrap_or(0);
+		if map != 0 && map_sizes.last() != Some(&map) {
+			map_sizes.push(map);
+			sh.map_now.store(map, Ordering::Relaxed);
+			snapshots_at_resize.push(sh.snapshots.load(Ordering::Relaxed));
+		}
+		if map_sizes.len() - 1 - warm_resizes >= plan.target_resizes as usize {
+			sh.stop.store(true, Ordering::SeqCst);
+		}
+		if sh.payload.load(Ordering::Relaxed) > (256 << 20) {
+			cap_hit = true;
+			sh.stop.store(true, Ordering::SeqCst);
+		}
+		let fin = (1..=n_threads).filter(|&i| sh.slots[i].finished.load(Ordering::SeqCst)).count();
+		if fin == n_threads {
+			break;
+		}
+		let now = sh.t0.elapsed();
+		if now > Duration::from_secs(60) {
+			// watchdog: a stall is only claimed if every unfinished thread sits inside a store call
+			let now_ms = now.as_millis() as u64;
+			let mut table = vec![];
+			let mut all_blocked = true;
+			for i in 1..=n_threads {
+				let s = &sh.slots[i];
+				if s.finished.load(Ordering::SeqCst) {
+					table.push(format!("{}: finished", s.name));
+					continue;
+				}
+				let op = s.op.load(Ordering::SeqCst);
+				let since = s.since_ms.load(Ordering::SeqCst);
+				let age = now_ms.saturating_sub(since);
+				if op == 0 || age < 10_000 {
+					all_blocked = false;
+				}
+				table.push(format!("{}: in {} for {} ms (call #{})", s.name, OPS[op], age, s.calls.load(Ordering::Relaxed)));
+			}
+			let t = table.join("; ");
+			if all_blocked {
+				stalled = Some(t);
+				break;
+			}
+			// keep sampling for 20 s (a thread may just be sleeping in harness code)
+			if now > Duration::from_secs(80) {
+				return harness(format!("run did not finish in 80 s but not every thread is blocked inside a store call: {}", t));
+			}
+		}
+	}
+	let stats = |sh: &Shared, map_sizes: &Vec<u64>| {
+		json!({
+			"map_sizes": map_sizes,
+			"warm_up_batches": warm,
+			"warm_up_resizes": warm_resizes,
+			"resizes": map_sizes.len() - 1 - warm_resizes,
+			"batches": sh.batches.load(Ordering::Relaxed),
+			"dropped_batches": sh.dropped_batches.load(Ordering::Relaxed),
+			"child_commits": sh.child_commits.load(Ordering::Relaxed),
+			"child_drops": sh.child_drops.load(Ordering::Relaxed),
+			"snapshots": sh.snapshots.load(Ordering::Relaxed),
+			"gets": sh.gets.load(Ordering::Relaxed),
+			"slow_batch_opens": sh.slow_opens.load(Ordering::Relaxed),
+			"payload_bytes": sh.payload.load(Ordering::Relaxed),
+			"snapshots_at_resize": snapshots_at_resize,
+			"commits_ending_above_90_percent_of_map": sh.commits_over_threshold.load(Ordering::Relaxed),
+			"data_file_bytes_at_end": file_used(dir),
+			"wall_ms": sh.t0.elapsed().as_millis() as u64,
+		})
+	};
+	if let Some(t) = stalled {
+		return failv(&Fail::new("conc-stall", format!("no progress for 60 s; every thread is blocked inside a store call: {}", t)), stats(&sh, &map_sizes));
+	}
+	for h in handles {
+		let _ = h.join();
+	}
+	if let Some(f) = sh.fail.lock().unwrap().clone() {
+		return failv(&f, stats(&sh, &map_sizes));
+	}
+	if cap_hit {
+		return harness(format!("256 MiB written without reaching {} resizes (map sizes {:?})", plan.target_resizes, map_sizes));
+	}
+	// ---- all writers finished: nothing lost, also after reopening
+	let committed = loads(&sh.committed);
+	if let Err(f) = final_check(plan, &store, &committed, "final check") {
+		return failv(&f, stats(&sh, &map_sizes));
+	}
+	let st = stats(&sh, &map_sizes);
+	drop(sh);
+	match Arc::try_unwrap(store) {
+		Ok(s) => drop(s),
+		Err(_) => return harness("store still shared after all threads were joined".into()),
+	}
+	// a deferred resize thread may still hold the environment for a moment
+	let mut reopened = None;
+	for _ in 0..200 {
+		match open_store(dir) {
+			Ok(s) => {
+				reopened = Some(s);
+				break;
+			}
+			Err(_) => std::thread::sleep(Duration::from_millis(10)),
+		}
+	}
+	let Some(s2) = reopened else { return harness("cannot reopen the store after the run".into()) };
+	if let Err(f) = final_check(plan, &s2, &committed, "final check after reopen") {
+		return failv(&f, st);
+	}
+	json!({"status": "ok", "stats": st})
+}
+
+fn read_json(p: &Path) -> Option<Value> {
+	std::fs::read_to_string(p).ok().and_then(|s| serde_json::from_str(&s).ok())
+}
+
+/// spawn `gv child x C18 <args>`; returns (exit status, timed out)
+fn run_child(args: &[&str], envs: &[(&str, String)], timeout: Duration) -> std::io::Result<(std::process::ExitStatus, bool)> {
+	let exe = std::env::current_exe()?;
+	let mut c = Command::new(exe);
+	c.args(["child", "x", "C18"]).args(args);
+	for (k, v) in envs {
+		c.env(k, v);
+	}
+	c.env_remove("RUST_LOG");
+	c.stdin(std::process::Stdio::null()).stdout(std::process::Stdio::null()).stderr(std::process::Stdio::null());
+	let mut ch = c.spawn()?;
+	let t0 = Instant::now();
+	loop {
+		if let Some(st) = ch.try_wait()? {
+			return Ok((st, false));
+		}
+		if t0.elapsed() > timeout {
+			let _ = ch.kill();
+			return Ok((ch.wait()?, true));
+		}
+		std::thread::sleep(Duration::from_millis(if t0.elapsed() < Duration::from_millis(200) { 1 } else { 10 }));
+	}
+}
+
+/// one run of a plan in a child process
+fn conc_once(ctx: &Ctx, plan: &Plan, counting: bool) -> PResult {
+	use std::os::unix::process::ExitStatusExt;
+	let dir = ctx.scratch_dir("conc");
+	let pf = dir.join("plan.json");
+	let out = dir.join("out.json");
+	let data = dir.join("db");
+	let r = (|| -> PResult {
+		std::fs::create_dir_all(&data).map_err(|e| Fail::new("harness:io", e.to_string()))?;
+		std::fs::write(&pf, serde_json::to_string(plan).unwrap()).map_err(|e| Fail::new("harness:io", e.to_string()))?;
+		let (st, timed_out) = run_child(&["conc", pf.to_str().unwrap(), data.to_str().unwrap(), out.to_str().unwrap()], &[], Duration::from_secs(120)).map_err(|e| Fail::new("harness:spawn", e.to_string()))?;
+		let rep = read_json(&out);
+		let Some(rep) = rep else {
+			if timed_out {
+				return Err(Fail::new("harness:conc-timeout", "the child did not report within 120 s (its own watchdog should have fired at 60 s)"));
+			}
+			return match st.signal() {
+				// the harness side of the child is safe Rust (panics are caught and
+				// reported); dying from one of these signals happens inside LMDB
+				Some(sig @ (4 | 6 | 7 | 8 | 11)) => Err(Fail::new(format!("conc:process-died:signal-{}", sig), format!("the process running the concurrent plan was killed by signal {} (memory fault / abort inside the database library) before it could report", sig))),
+				_ => Err(Fail::new("harness:conc-child-died", format!("child ended with {:?} without a report", st))),
+			};
+		};
+		let stats = &rep["stats"];
+		match rep["status"].as_str() {
+			Some("ok") => {
+				if counting {
+					let ev = &ctx.ev;
+					let resizes = stats["resizes"].as_u64().unwrap_or(0);
+					ev.class(&format!("conc_runs_with_resizes:{}", resizes));
+					ev.class_n("conc_resizes_observed", resizes);
+					ev.class_n("conc_warm_up_resizes_observed", stats["warm_up_resizes"].as_u64().unwrap_or(0));
+					ev.class_n("conc_batches_committed", stats["batches"].as_u64().unwrap_or(0) + stats["warm_up_batches"].as_u64().unwrap_or(0));
+					ev.class_n("conc_batches_dropped", stats["dropped_batches"].as_u64().unwrap_or(0));
+					ev.class_n("conc_child_batches_committed", stats["child_commits"].as_u64().unwrap_or(0));
+					ev.class_n("conc_child_batches_dropped", stats["child_drops"].as_u64().unwrap_or(0));
+					ev.class_n("conc_reader_snapshots_checked", stats["snapshots"].as_u64().unwrap_or(0));
+					ev.class_n("conc_reader_gets_checked", stats["gets"].as_u64().unwrap_or(0));
+					let slow = stats["slow_batch_opens"].as_u64().unwrap_or(0);
+					if slow > 0 {
+						ev.class("conc_runs_with_batch_open_delayed_by_resize");
+					}
+					// non-trivial: a resize during the concurrent phase with reader
+					// snapshots completed both before and after it
+					let snaps = stats["snapshots"].as_u64().unwrap_or(0);
+					let at: Vec<u64> = stats["snapshots_at_resize"].as_array().map(|a| a.iter().filter_map(|x| x.as_u64()).collect()).unwrap_or_default();
+					if resizes >= 1 && at.first().map(|&a| a > 0).unwrap_or(false) && at.last().map(|&a| snaps > a).unwrap_or(false) {
+						ev.class("conc_runs_resize_between_reader_snapshots");
+						ev.nontrivial(&("conc", plan.writers, plan.readers, plan.groups, plan.keys_per_group, plan.max_kib / 10, resizes, slow > 0));
+					}
+					ev.sample("conc", || json!({"plan": plan, "stats": stats}));
+				}
+				Ok(())
+			}
+			Some("fail") => Err(Fail::new(rep["sig"].as_str().unwrap_or("conc:?"), format!("{} [stats {}]", rep["msg"].as_str().unwrap_or("?"), stats))),
+			_ => Err(Fail::new("harness:conc", rep["msg"].as_str().unwrap_or("?").to_string())),
+		}
+	})();
+	let _ = std::fs::remove_dir_all(&dir);
+	if counting {
+		ctx.ev.eval();
+	}
+	r
+}
+
+/// a plan is run `repeats` times (the thread schedule is sampled, not controlled)
+fn check_conc(ctx: &Ctx, plan: &Plan, repeats: usize, counting: bool) -> PResult {
+	let results: Vec<PResult> = std::thread::scope(|sc| {
+		let hs: Vec<_> = (0..repeats).map(|_| sc.spawn(|| conc_once(ctx, plan, counting))).collect();
+		hs.into_iter().map(|h| h.join().unwrap_or_else(|_| Err(Fail::new("harness:panic", "conc_once panicked")))).collect()
+	});
+	// a property failure wins over a harness problem
+	let mut harness = None;
+	for r in results {
+		match r {
+			Ok(()) => {}
+			Err(f) if f.sig.starts_with("harness:") => harness = Some(f),
+			Err(f) => return Err(f),
+		}
+	}
+	match harness {
+		Some(f) => Err(f),
+		None => Ok(()),
+	}
+}
+
+// ------------------------------------------------------------------ part C: crash around commit
+
+#[derive(Clone, Debug, Serialize, Deserialize)]
+pub enum BOp {
+	Put { db: u8, key: u8, val: ValSpec },
+	PutSer { db: u8, key: u8, val: ValSpec },
+	Del { db: u8, key: u8 },
+	Child { body: Vec<BOp>, commit: bool },
+}
+
+#[derive(Clone, Debug, Serialize, Deserialize)]
+pub struct Scenario {
+	/// committed before the batch under test (two commits)
+	pub base: Vec<BOp>,
+	/// the batch under test; it is committed at the end
+	pub body: Vec<BOp>,
+}
+
+fn small_val() -> impl Strategy<Value = ValSpec> {
+	(prop_oneof![5 => 1u32..300, 2 => 300u32..9000, 1 => 9000u32..40000], any::<u8>()).prop_map(|(len, tag)| ValSpec { len, tag })
+}
+
+fn write_op() -> impl Strategy<Value = BOp> {
+	let db = 0u8..NDB as u8;
+	let key = 0u8..8;
+	prop_oneof![
+		5 => (db.clone(), key.clone(), small_val()).prop_map(|(db, key, val)| BOp::Put { db, key, val }),
+		2 => (db.clone(), key.clone(), small_val()).prop_map(|(db, key, val)| BOp::PutSer { db, key, val }),
+		3 => (db.clone(), key.clone()).prop_map(|(db, key)| BOp::Del { db, key }),
+	]
+}
+
+fn scenario_strategy() -> impl Strategy<Value = Scenario> {
+	let grandchild = (prop::collection::vec(write_op(), 0..4), any::<bool>()).prop_map(|(body, commit)| BOp::Child { body, commit });
+	let child = (prop::collection::vec(prop_oneof![4 => write_op(), 1 => grandchild], 0..6), prop::bool::weighted(0.65)).prop_map(|(body, commit)| BOp::Child { body, commit });
+	(prop::collection::vec(write_op(), 2..14), prop::collection::vec(prop_oneof![3 => write_op(), 2 => child], 1..9)).prop_map(|(base, body)| Scenario { base, body })
+}
+
+/// apply ops to an open batch (real store)
+fn apply_real(b: &mut Batch<'_>, ops: &[BOp]) -> Result<(), DbError> {
+	for op in ops {
+		match op {
+			BOp::Put { db, key, val } => b.put(dbk(*db as usize), &key_bytes(*key), &val.bytes())?,
+			BOp::PutSer { db, key, val } => b.put_ser(dbk(*db as usize), &key_bytes(*key), &Rec(val.bytes()))?,
+			BOp::Del { db, key } => b.delete(dbk(*db as usize), &key_bytes(*key))?,
+			BOp::Child { body, commit } => {
+				let mut c = b.child()?;
+				apply_real(&mut c, body)?;
+				if *commit {
+					c.commit()?;
+				} else {
+					drop(c);
+				}
+			}
+		}
+	}
+	Ok(())
+}
+
+/// apply ops to the innermost open level of the model; returns the number of
+/// child levels (committed, dropped) seen
+fn apply_model(m: &mut Model, ops: &[BOp], counts: &mut (u32, u32, u32)) {
+	for op in ops {
+		match op {
+			BOp::Put { db, key, val } => m.put(*db as usize, key_bytes(*key), val.bytes()),
+			BOp::PutSer { db, key, val } => m.put(*db as usize, key_bytes(*key), rec_encoding(&val.bytes())),
+			BOp::Del { db, key } => m.del(*db as usize, key_bytes(*key)),
+			BOp::Child { body, commit } => {
+				m.push();
+				counts.2 = counts.2.max(m.ovs.len() as u32);
+				apply_model(m, body, counts);
+				if *commit {
+					counts.0 += 1;
+					m.commit_top();
+				} else {
+					counts.1 += 1;
+					m.drop_top();
+				}
+			}
+		}
+	}
+}
+
+fn digest_model(m: &Model) -> Vec<Value> {
+	let mut out = vec![];
+	for db in 0..NDB {
+		for (k, v) in m.base_view(db) {
+			out.push(json!([db, k.to_hex(), v.len(), crate::refmmr::blake(&[&v[..]]).to_vec().to_hex()]));
+		}
+	}
+	out
+}
+
+fn digest_store(s: &Store) -> Result<Vec<Value>, DbError> {
+	let mut out = vec![];
+	for db in 0..NDB {
+		let it = s.iter(dbk(db), kv_copy as IterFn)?;
+		for r in it {
+			let (k, v) = r?;
+			out.push(json!([db, k.to_hex(), v.len(), crate::refmmr::blake(&[&v[..]]).to_vec().to_hex()]));
+		}
+	}
+	Ok(out)
+}
+
+/// `gv child x C18 run <scenario.json> <dir>`   prepare base (unarmed), arm, run the batch (may die)
+/// `gv child x C18 check <scenario.json> <dir> <out.json>`  reopen and dump the content
+/// `gv child x C18 conc <plan.json> <dir> <out.json>`   one concurrent run
+pub fn child(args: &[String]) -> i32 {
+	init_global();
+	if args.len() < 3 {
+		return 2;
+	}
+	let dir = PathBuf::from(&args[2]);
+	match args[0].as_str() {
+		"conc" => {
+			let Some(plan) = std::fs::read_to_string(&args[1]).ok().and_then(|s| serde_json::from_str::<Plan>(&s).ok()) else { return 3 };
+			let Some(out) = args.get(3) else { return 2 };
+			let rep = match catch(|| conc_child(&plan, &dir)) {
+				Ok(v) => v,
+				Err(f) => json!({"status": "fail", "sig": f.sig, "msg": f.msg, "stats": {}}),
+			};
+			let tmp = PathBuf::from(format!("{}.tmp", out));
+			if std::fs::write(&tmp, serde_json::to_string(&rep).unwrap()).is_ok() {
+				let _ = std::fs::rename(&tmp, out);
+			}
+			0
+		}
+		"run" => {
+			let Some(sc) = std::fs::read_to_string(&args[1]).ok().and_then(|s| serde_json::from_str::<Scenario>(&s).ok()) else { return 3 };
+			grin_util::verif::arm(false);
+			let store = match open_store(&dir) {
+				Ok(s) => s,
+				Err(e) => {
+					eprintln!("run child: open failed: {}", e);
+					return 4;
+				}
+			};
+			let half = sc.base.len() / 2;
+			for part in [&sc.base[..half], &sc.base[half..]] {
+				let r = (|| -> Result<(), DbError> {
+					let mut b = store.batch()?;
+					apply_real(&mut b, part)?;
+					b.commit()
+				})();
+				if let Err(e) = r {
+					eprintln!("run child: base failed: {}", e);
+					return 4;
+				}
+			}
+			grin_util::verif::reset();
+			grin_util::verif::arm(true);
+			let r = (|| -> Result<(), DbError> {
+				let mut b = store.batch()?;
+				apply_real(&mut b, &sc.body)?;
+				b.commit()
+			})();
+			grin_util::verif::arm(false);
+			match r {
+				Ok(()) => 0,
+				Err(e) => {
+					eprintln!("run child: batch failed: {}", e);
+					5
+				}
+			}
+		}
+		"check" => {
+			grin_util::verif::arm(false);
+			let Some(out) = args.get(3) else { return 2 };
+			let rep = match catch(|| -> Result<Vec<Value>, DbError> {
+				let s = open_store(&dir)?;
+				digest_store(&s)
+			}) {
+				Ok(Ok(v)) => json!({"content": v}),
+				Ok(Err(e)) => json!({"error": e.to_string()}),
+				Err(f) => json!({"panic": f.msg}),
+			};
+			let _ = std::fs::write(out, serde_json::to_string(&rep).unwrap());
+			0
+		}
+		_ => 2,
+	}
+}
+
+/// enumerate every crash point of one scenario
+fn check_crash(ctx: &Ctx, sc: &Scenario, counting: bool) -> PResult {
+	let ev = &ctx.ev;
+	// expected contents from the model
+	let mut m = Model::default();
+	let half = sc.base.len() / 2;
+	let mut counts = (0, 0, 1);
+	for part in [&sc.base[..half], &sc.base[half..]] {
+		m.push();
+		apply_model(&mut m, part, &mut (0, 0, 0));
+		m.commit_top();
+	}
+	let pre = json!(digest_model(&m));
+	m.push();
+	apply_model(&mut m, &sc.body, &mut counts);
+	m.commit_top();
+	let post = json!(digest_model(&m));
+
+	let work = ctx.scratch_dir("crash");
+	let res = (|| -> PResult {
+		let io = |e: std::io::Error| Fail::new("harness:io", e.to_string());
+		let scf = work.join("scenario.json");
+		std::fs::write(&scf, serde_json::to_string(sc).unwrap()).map_err(io)?;
+		let t = Duration::from_secs(60);
+		// uninterrupted run with a trace
+		let refdir = work.join("ref");
+		std::fs::create_dir_all(&refdir).map_err(io)?;
+		let trace = work.join("trace.txt");
+		let (st, _) = run_child(&["run", scf.to_str().unwrap(), refdir.to_str().unwrap()], &[("GRIN_VERIF_CRASH_TRACE", trace.to_string_lossy().to_string()), ("GRIN_VERIF_CRASH_AT", "0".into())], t).map_err(io)?;
+		match st.code() {
+			Some(0) => {}
+			Some(5) => return Err(Fail::new("crash:uninterrupted-batch-failed", "the batch of the scenario returned an error without any crash")),
+			_ => return Err(Fail::new("harness:crash-run", format!("reference run ended with {:?}", st))),
+		}
+		let labels: Vec<String> = std::fs::read_to_string(&trace).unwrap_or_default().lines().map(|l| l.splitn(2, ' ').nth(1).unwrap_or("").to_string()).collect();
+		let n_points = labels.len();
+		ensure!(n_points >= 2 && labels[n_points - 1] == "lmdb.commit:after" && labels[n_points - 2] == "lmdb.commit:before", "harness:crash-trace", "unexpected crash point trace {:?}", labels);
+		let refout = work.join("ref.json");
+		run_child(&["check", scf.to_str().unwrap(), refdir.to_str().unwrap(), refout.to_str().unwrap()], &[], t).map_err(io)?;
+		let Some(reference) = read_json(&refout) else { return Err(Fail::new("harness:crash-check", "no reference report")) };
+		ensure!(reference["content"] == post, "crash:uninterrupted-content-differs", "content after the uninterrupted batch and reopen differs from the model: got {} expected {}", truncate(&reference.to_string(), 600), truncate(&post.to_string(), 600));
+		if counting {
+			ev.class("crash_scenarios");
+			ev.class(&format!("crash_scenario_nesting_depth:{}", counts.2));
+			if counts.0 > 0 {
+				ev.class("crash_scenarios_with_committed_child");
+			}
+			if counts.1 > 0 {
+				ev.class("crash_scenarios_with_dropped_child");
+			}
+			if pre == post {
+				ev.class("crash_scenarios_pre_equals_post");
+			}
+			ev.sample("crash", || json!({"points": labels, "children_committed": counts.0, "children_dropped": counts.1, "scenario": sc}));
+		}
+		let fails: Mutex<Vec<(usize, Fail)>> = Mutex::new(vec![]);
+		let next = AtomicUsize::new(1);
+		std::thread::scope(|s| {
+			for _ in 0..8usize.min(n_points) {
+				s.spawn(|| loop {
+					let n = next.fetch_add(1, Ordering::SeqCst);
+					if n > n_points {
+						break;
+					}
+					let label = labels[n - 1].as_str();
+					let d = work.join(format!("p{}", n));
+					let out = work.join(format!("p{}.json", n));
+					let r = (|| -> PResult {
+						std::fs::create_dir_all(&d).map_err(io)?;
+						let (st, _) = run_child(&["run", scf.to_str().unwrap(), d.to_str().unwrap()], &[("GRIN_VERIF_CRASH_AT", n.to_string())], t).map_err(io)?;
+						if st.success() || st.code().is_some() {
+							return Err(Fail::new("harness:no-crash", format!("point {} was not reached: {:?}", n, st)));
+						}
+						run_child(&["check", scf.to_str().unwrap(), d.to_str().unwrap(), out.to_str().unwrap()], &[], t).map_err(io)?;
+						let Some(rep) = read_json(&out) else { return Err(Fail::new("crash:reopen-process-died", "the process reopening the store died without a report")) };
+						if rep.get("content").is_none() {
+							return Err(Fail::new("crash:reopen-fails", format!("reopening after the crash failed: {}", truncate(&rep.to_string(), 400))));
+						}
+						let c = &rep["content"];
+						let (is_pre, is_post) = (*c == pre, *c == post);
+						ensure!(is_pre || is_post, "crash:mixture", "content after reopen is neither the pre-batch nor the post-batch content: got {} pre {} post {}", truncate(&c.to_string(), 500), truncate(&pre.to_string(), 500), truncate(&post.to_string(), 500));
+						if label == "lmdb.commit:after" {
+							ensure!(is_post, "crash:committed-batch-lost", "the outer commit had returned from LMDB but the content after reopen is the pre-batch content");
+						} else if label.starts_with("lmdb.commit:") {
+							ensure!(is_pre, "crash:uncommitted-batch-visible", "the outer commit had not started but the content after reopen is the post-batch content");
+						}
+						Ok(())
+					})();
+					let _ = std::fs::remove_dir_all(&d);
+					if counting {
+						ev.eval();
+						ev.class(&format!("crash_point:{}", label));
+						if pre != post {
+							ev.nontrivial(&("crash", label.to_string(), n, n_points, counts.0, counts.1));
+						}
+					}
+					if let Err(f) = r {
+						fails.lock().unwrap().push((n, Fail::new(f.sig, format!("crash at point {} of {} ('{}'): {}", n, n_points, label, f.msg))));
+					}
+				});
+			}
+		});
+		if counting {
+			let mut g = ev.0.lock().unwrap();
+			let cur = g.extra.get("crash_points_enumerated").and_then(|v| v.as_u64()).unwrap_or(0);
+			g.extra.insert("crash_points_enumerated".into(), json!(cur + n_points as u64));
+		}
+		let mut fails = fails.into_inner().unwrap();
+		fails.sort_by_key(|x| x.0);
+		// a property failure wins over a harness problem
+		if let Some(i) = fails.iter().position(|(_, f)| !f.sig.starts_with("harness:")) {
+			return Err(fails.remove(i).1);
+		}
+		match fails.into_iter().next() {
+			Some((_, f)) => Err(f),
+			None => Ok(()),
+		}
+	})();
+	let _ = std::fs::remove_dir_all(&work);
+	res
+}
+
+// ------------------------------------------------------------------ entry points
+
+pub fn part(ctx: &Ctx, part: &str, seed: u64, cases: u32) -> Option<(Value, Fail)> {
+	init_global();
+	match part {
+		"seq" => run_part(ctx, seed, cases, &seq_strategy(ctx.quick()), |s, c| check_seq(ctx, s, c)),
+		_ => None,
+	}
+}
+
+const CONC_REPEATS: usize = 3;
+
+pub fn run(ctx: &Ctx) -> HResult<()> {
+	init_global();
+	let ev = &ctx.ev;
+	ev.rule("seq: proptest sequences (6..60/90 ops) over one Store with the default db + 3 prefix dbs, 8 keys per db, values 1 B..64 KiB: open batch / child (up to 3 nested child levels), put, put_ser, delete, get_ser, exists, iter at the innermost level, commit / drop of the innermost level, reads through the Store on the same thread while a batch is open, an iterator held open across later ops, reopen; every read and a full iteration of all dbs after every structural step is compared with a nested-transaction map model. Non-trivial = a child batch with writes was committed and its parent dropped, or a child was committed after a sibling with writes was dropped, or a parent committed after a child with writes was dropped; distinct by the structural skeleton of the sequence");
+	ev.rule("conc: seed-derived plans (1-4 writers, 1-4 readers of kinds iter / get / batch-as-reader, one iterator holder, key groups spread over the 4 dbs, batches of 10-100 KiB), each run 3 times in its own process until the LMDB map was enlarged 2-3 times during the concurrent phase; thread schedules are SAMPLED, not controlled. Non-trivial = a resize in the concurrent phase with reader snapshots completed before and after it; distinct by plan shape");
+	ev.rule("crash: generated scenarios (base content + one batch with committed / dropped children and grandchildren); EVERY crash point of the batch (lmdb.commit:before|after[:child]) is enumerated: a process aborts at point n, a second process reopens and dumps all dbs. Non-trivial = scenario whose batch changes the content; distinct by (label, ordinal, children)");
+	ev.assume("key order of iteration is LMDB's default byte-lexicographic order; the model uses BTreeMap<Vec<u8>>");
+	ev.assume("precondition of the callers: a batch fits into the space left when it was opened (maybe_resize runs only in Store::batch). seq skips puts beyond 3/4 of (map size - data file size - 96 KiB) measured when the outer batch was opened; conc keeps batches below map/40 during a single-threaded warm-up until map >= 40 * (threads opening batches) * max batch size");
+	ev.assume("map size is observed from /proc/self/maps, used space from the length of data.mdb (no public accessor on Store)");
+	ev.assume("crash = abort() of the process at an instrumented point; data handed to the kernel survives (tmpfs), torn writes are out of scope");
+	ev.assume("a reader that opened its transaction before a commit legitimately keeps seeing the older content; reads through a Batch see the transaction's own uncommitted writes");
+
+	// A
+	if let Some((case, f)) = pbt_proc(ctx, "seq", ctx.n(24_000, 400_000), 16) {
+		if f.sig.starts_with("harness:") {
+			return Err(HarnessError(format!("seq: {}: {}", f.sig, f.msg)));
+		}
+		ctx.report("seq", &f.sig, case, &f.msg);
+	}
+
+	// B: plans are independent; 3 plans x 3 repeats at a time
+	let plans: Vec<Plan> = (0..ctx.n(24, 200)).map(|k| sample_one(ctx.derive_seed("plan", k), &plan_strategy())).collect();
+	let mut harness_err: Option<String> = None;
+	for chunk in plans.chunks(3) {
+		let rs: Vec<(Plan, PResult)> = std::thread::scope(|sc| {
+			let hs: Vec<_> = chunk.iter().map(|p| sc.spawn(move || (p.clone(), check_conc(ctx, p, CONC_REPEATS, true)))).collect();
+			hs.into_iter().map(|h| h.join().expect("conc thread")).collect()
+		});
+		let mut stop = false;
+		for (p, r) in rs {
+			match r {
+				Ok(()) => {}
+				Err(f) if f.sig.starts_with("harness:") => {
+					ev.class("conc_runs_inconclusive");
+					harness_err = Some(format!("conc: {}: {}", f.sig, f.msg));
+				}
+				Err(f) => {
+					ev.class(&format!("conc_plans_failed:{}", f.sig));
+					let known = ctx.is_known(&f.sig);
+					ctx.report("conc", &f.sig, serde_json::to_value(&p).unwrap(), &f.msg);
+					if !known {
+						stop = true;
+					}
+				}
+			}
+		}
+		if stop {
+			break;
+		}
+	}
+
+	// C
+	let n_sc = ctx.n(60, 600);
+	let mut enumerated_ok = true;
+	for k in 0..n_sc {
+		let sc = sample_one(ctx.derive_seed("scenario", k), &scenario_strategy());
+		match catch(|| check_crash(ctx, &sc, true)) {
+			Ok(Ok(())) => {}
+			Ok(Err(f)) | Err(f) => {
+				if f.sig.starts_with("harness:") {
+					ev.class("crash_scenarios_inconclusive");
+					enumerated_ok = false;
+					harness_err = Some(format!("crash: {}: {}", f.sig, f.msg));
+					continue;
+				}
+				ctx.report("crash", &f.sig, serde_json::to_value(&sc).unwrap(), &f.msg);
+				break;
+			}
+		}
+	}
+	ev.extra("crash_points_of_each_scenario_exhaustive", json!(enumerated_ok));
+	match harness_err {
+		Some(e) => Err(HarnessError(e)),
+		None => Ok(()),
+	}
+}
+
+pub fn replay(ctx: &Ctx, part: &str, case: &Value) -> PResult {
+	init_global();
+	let bad = |e: serde_json::Error| Fail::new("harness:replay-parse", e.to_string());
+	match part {
+		"seq" => check_seq(ctx, &serde_json::from_value(case.clone()).map_err(bad)?, false),
+		"conc" => check_conc(ctx, &serde_json::from_value(case.clone()).map_err(bad)?, 5, false),
+		"crash" => check_crash(ctx, &serde_json::from_value(case.clone()).map_err(bad)?, false),
+		_ => Ok(()),
+	}
 }
